@@ -1,6 +1,8 @@
 #!/bin/sh
-# run every claimed check (quick tier) and report
+# run every claimed check (quick tier by default) and report; first the hygiene scan of the Coq development
 cd "$(dirname "$0")"
+if grep -rnE '\b(Admitted|admit|Axiom|Parameter|Conjecture|Admit Obligations)\b|Unset Guard|bypass_check|type-in-type|impredicative-set' coq --include='*.v' | grep -v '^coq/[^:]*:[0-9]*: *(\*' ; then
+  echo "HYGIENE: forbidden declaration found in coq/"; fi
 for id in $(python3 -c "import json;print(' '.join(c['property_id'] for c in json.load(open('MANIFEST.json'))['checks']))"); do
   ./check $id --tier ${1:-quick} 2>&1 | tail -3
 done
